@@ -137,6 +137,25 @@ func (r *Run) Lockset(pkg, typ, mutex string, fieldList []string, helpers []stri
 		fields[f] = true
 	}
 	lockPath := "recv." + mutex
+	// a method that is new relative to the reviewed tree and never takes the lock itself is treated
+	// as a helper of its callers (an extracted piece of a critical section): its premise — every
+	// call site holds the lock — is verified like for the listed helpers
+	if knownFuncs != nil {
+		for _, name := range r.P.FuncNames() {
+			if strings.HasPrefix(name, pkg+".(*"+typ+").") && !strings.Contains(name, "$") && !knownFuncs[name] {
+				f := r.P.Fn(name)
+				takes := false
+				for _, cs := range r.P.Calls(f, false) {
+					if strings.HasPrefix(cs.Callee, "(*sync.") && (cs.Method == "Lock" || cs.Method == "RLock") {
+						takes = true
+					}
+				}
+				if !takes {
+					helpers = append(helpers, f.Name())
+				}
+			}
+		}
+	}
 	isHelper := map[string]bool{}
 	for _, h := range helpers {
 		isHelper[h] = true
